@@ -206,6 +206,35 @@ fn check_policy(req: &DHCPRequest, policy: &config::Policy) -> PolicyMatch {
     outcome
 }
 
+/// An IPv4 address in an option value can be written as $self4 (INTERFACE4): the address of the
+/// interface the request arrived on.
+fn resolve_self4(
+    value: &dhcppkt::DhcpOptionTypeValue,
+    serverip: std::net::Ipv4Addr,
+) -> dhcppkt::DhcpOptionTypeValue {
+    use dhcppkt::DhcpOptionTypeValue::*;
+    let own = |ip: &std::net::Ipv4Addr| {
+        if std::net::IpAddr::V4(*ip) == crate::config::INTERFACE4 {
+            serverip
+        } else {
+            *ip
+        }
+    };
+    match value {
+        Ip(ip) => Ip(own(ip)),
+        IpList(l) => IpList(l.iter().map(own).collect()),
+        Routes(l) => Routes(
+            l.iter()
+                .map(|r| dhcppkt::Route {
+                    prefix: r.prefix,
+                    nexthop: own(&r.nexthop),
+                })
+                .collect(),
+        ),
+        other => other.clone(),
+    }
+}
+
 fn apply_policy(req: &DHCPRequest, policy: &config::Policy, response: &mut Response) -> bool {
     /* Check if our policy should match.
      */
@@ -248,6 +277,7 @@ fn apply_policy(req: &DHCPRequest, policy: &config::Policy, response: &mut Respo
 
     for (k, v) in &policy.apply_other {
         if pl.contains(k) {
+            let v = v.as_ref().map(|v| resolve_self4(v, req.serverip));
             response.options.mutate_option(k, v.as_ref());
         }
     }
